@@ -280,6 +280,8 @@ impl TopicCleanTracker {
                 }
             }
         }
+        #[cfg(walrus_verif)]
+        crate::wal::verif::sched_point("tc_before_persist");
         self.store.persist_updates(&updates)
     }
 
